@@ -25,7 +25,7 @@ RULE = ("clause lists of length 0-5 over iteration clauses (dependent iterables,
         "generator-function strategy, or a leak expectation exercised (setx / pre-bound same name / "
         "for); distinct by Hy text.")
 FLOOR = {"quick": 800, "thorough": 800}
-BUDGET = {"quick": 24, "thorough": 480}
+BUDGET = {"quick": 22, "thorough": 480}
 CASE_TIMEOUT = 20
 NEEDS_EVENTS = True
 # (ScopeGen.assign / .access are wrapped by NodeRef.wrap, whose closure hides the code
